@@ -151,6 +151,15 @@ package alephium
 // The Alephium full node is the environment: every answer is an arbitrary value; the only
 // thing assumed is the shape of a successful answer (non-nil result). Listed as trusted.
 
+// the bookkeeping every node request goes through must not crash the watcher when the node
+// answers with an error (a foreign event can make it do so: metadata calls on contracts that
+// do not exist)
+//@ func requestWithMetric[T any](req Request[T], timestamp *time.Time, label string) (t T, r *http.Response, err error)
+//@   props C09
+//@   requires timestamp != nil && req != nil && p2p.DefaultRegistry != nil
+//@   nopanic
+//@   modifies *
+
 //@ func (c *Client) GetCurrentHeight(ctx context.Context, chainIndex *ChainIndex) (h *int32, err error)
 //@   assume-contract
 //@   ensures (err == nil) == (h != nil)
